@@ -265,7 +265,7 @@ func execOne(j *job, py *python) (res result) {
 				panic(err)
 			}
 		}
-		out, err := libDecode(f, wire)
+		out, err := libDecodeSrc(f, wire, j.Src)
 		if err != nil {
 			r.Err = 1
 			r.Note = err.Error()
@@ -318,7 +318,9 @@ func verdicts(ctx *core.Ctx, rp *reporter, jobs []*job, res []result, all bool) 
 		if r.refused {
 			continue
 		}
-		if all || r.suspect || small(r.rec) || jobs[i].Variant == "big" || jobs[i].Variant == "deferred-clear-tlc" {
+		// (the dense sweeps are compared with the independent codecs; TLC judges the suspects among them)
+		sweep := strings.Contains(jobs[i].Variant, "sweep")
+		if all || r.suspect || (small(r.rec) && !sweep) || jobs[i].Variant == "big" || jobs[i].Variant == "deferred-clear-tlc" {
 			sel = append(sel, r.rec)
 			idx = append(idx, i)
 		}
